@@ -155,6 +155,25 @@ Definition log_aof (s : server) (parts : list frame) : server :=
   {| s_dbs := s_dbs s; s_trk := s_trk s; s_conns := s_conns s;
      s_password := s_password s; s_aof := parts :: s_aof s; s_pubsub := s_pubsub s |}.
 
+(** AofEngine::append_command(command, db) after the repair 7ef6fad: the engine remembers the
+    database of the last command it wrote (None until the first append of a process) and writes
+    `SELECT <db>` before a command that ran in another one.  The remembered database is read
+    off the log: no client SELECT is ever appended (SELECT is not a write command), so the most
+    recent SELECT record is the engine's; [aof_boundary] (an empty entry, no bytes in the file)
+    marks a restart of the process, where the engine forgets. *)
+Definition aof_boundary : list frame := [].
+Definition aof_select (dbi : Z) : list frame := [FBulk (bs "SELECT"); FBulk (print_int dbi)].
+Fixpoint aof_last_db (log : list (list frame)) : option Z :=
+  match log with
+  | [] => None
+  | [] :: _ => None
+  | [FBulk n; FBulk a] :: r => if beq n (bs "SELECT") then parse_usize a else aof_last_db r
+  | _ :: r => aof_last_db r
+  end.
+Definition same_db (o : option Z) (dbi : Z) : bool := match o with Some n => n =? dbi | None => false end.
+Definition log_aof_in (s : server) (dbi : Z) (parts : list frame) : server :=
+  log_aof (if same_db (aof_last_db (s_aof s)) dbi then s else log_aof s (aof_select dbi)) parts.
+
 (** a new connection is Authenticated at once when no password is configured (server.rs:443-448) *)
 Definition connect (s : server) (c : Z) : server :=
   set_conn s c (new_conn (match s_password s with None => true | Some _ => false end)).
@@ -252,8 +271,8 @@ Definition dispatch_command (now : Z) (s : server) (c : Z) (dbi : Z) (parts : li
   match parts with
   | FBulk nm :: _ =>
       let name := upper nm in
-      (* AOF: appended before dispatch whenever the name is a write command *)
-      let s := if mem_name name write_commands then log_aof s parts else s in
+      (* AOF: appended before dispatch whenever the name is a write command, with the database it runs in *)
+      let s := if mem_name name write_commands then log_aof_in s dbi parts else s in
       if beq name (bs "PING") then
         (match parts with _ :: a :: _ => a | _ => FSimple (bs "PONG") end, s)
       else if beq name (bs "ECHO") then
@@ -325,52 +344,69 @@ Definition sweep_delete (now : Z) (d : db) (t : tracker) (ks : list bytes) : db 
 Definition was_modified_since (now : Z) (s : server) (dbi : Z) (k : bytes) (baseline : Z) : bool :=
   (baseline <? counter_of (get_trk s dbi) k) || was_expired now (get_db s dbi) k.
 
+(** watched_keys is keyed by (database the key was watched in, key) since a5f65e9; the pair is
+    encoded as one byte string: the database index (0..15) followed by the key *)
+Definition wkey (dbi : Z) (k : bytes) : bytes := dbi :: k.
+Definition wkey_db (w : bytes) : Z := match w with d :: _ => d | [] => 0 end.
+Definition wkey_key (w : bytes) : bytes := tl w.
+
 Definition clear_tx (cn : conn) : conn :=
   {| c_db := c_db cn; c_auth := c_auth cn; c_intx := false; c_queue := []; c_watched := [];
      c_closing := c_closing cn |}.
 
-(** the queued commands run back to back through process_normal_command with
-    connection id 0 and the database selected when EXEC arrived *)
-Fixpoint exec_queue (now : Z) (s : server) (dbi : Z) (q : list (list frame)) (acc : list frame)
+(** the name handle_exec dispatches a queued command on: trimmed, upper-cased *)
+Definition queued_name (parts : list frame) : bytes :=
+  match parts with FBulk nm :: _ => upper (trim nm) | _ => [] end.
+(** the queued commands run back to back through process_normal_command with connection id 0
+    and the database selected when EXEC arrived; since 1ecc022 a queued SELECT runs for the
+    connection [c] that sent EXEC, and the commands after it run in the database it selected *)
+Fixpoint exec_queue (now : Z) (s : server) (c : Z) (dbi : Z) (q : list (list frame)) (acc : list frame)
   : list frame * server :=
   match q with
   | [] => (rev acc, s)
-  | parts :: r => match normal_command now s 0 dbi parts None with
-                  | (rep, s') => exec_queue now s' dbi r (rep :: acc)
-                  end
+  | parts :: r =>
+      if beq (queued_name parts) (bs "SELECT") then
+        match normal_command now s c dbi parts None with
+        | (rep, s') =>
+            let dbi' := match zlookup c (s_conns s') with Some cn => c_db cn | None => dbi end in
+            exec_queue now s' c dbi' r (rep :: acc)
+        end
+      else
+        match normal_command now s 0 dbi parts None with
+        | (rep, s') => exec_queue now s' c dbi r (rep :: acc)
+        end
   end.
+
+(** the watched keys are checked in the database each was watched in *)
+Definition watch_violated (now : Z) (s : server) (cn : conn) : bool :=
+  existsb (fun kb => was_modified_since now s (wkey_db (fst kb)) (wkey_key (fst kb)) (snd kb)) (c_watched cn).
 
 Definition h_exec (now : Z) (s : server) (c : Z) (cn : conn) : frame * server :=
   if negb (c_intx cn) then (r_err, s) else
-  if existsb (fun kb => was_modified_since now s (c_db cn) (fst kb) (snd kb)) (c_watched cn)
+  if watch_violated now s cn
   then (FNullArray, set_conn s c (clear_tx cn))
   else
     let s1 := set_conn s c (clear_tx cn) in
-    match exec_queue now s1 (c_db cn) (c_queue cn) [] with
+    match exec_queue now s1 c (c_db cn) (c_queue cn) [] with
     | (reps, s2) => (FArray reps, s2)
     end.
 
 (** WATCH: registers key by key under the connection's current database *)
-Fixpoint watch_loop (t : tracker) (args : list frame) (w : list (bytes * Z))
-  : option (tracker * list (bytes * Z)) :=
-  match args with
-  | [] => Some (t, w)
-  | FBulk k :: r => match register_watch t k with
-                    | (b, t') => watch_loop t' r (aset k b w)
-                    end
-  | _ :: _ => None
-  end.
 (** on a non-bulk argument the handler answers an error having already registered
     the keys before it (they stay in watched_keys) *)
-Fixpoint watch_loop_partial (t : tracker) (args : list frame) (w : list (bytes * Z))
+Fixpoint watch_loop_partial (dbi : Z) (t : tracker) (args : list frame) (w : list (bytes * Z))
   : tracker * list (bytes * Z) * bool :=
   match args with
   | [] => (t, w, true)
   | FBulk k :: r => match register_watch t k with
-                    | (b, t') => watch_loop_partial t' r (aset k b w)
+                    | (b, t') => watch_loop_partial dbi t' r (aset (wkey dbi k) b w)
                     end
   | _ :: _ => (t, w, false)
   end.
+(** UNWATCH: every watch is unregistered in the database it was registered in *)
+Definition unwatch_all (s : server) (w : list (bytes * Z)) : server :=
+  fold_left (fun s kb => set_trk s (wkey_db (fst kb))
+                           (unregister_watch (get_trk s (wkey_db (fst kb))) (wkey_key (fst kb)))) w s.
 
 Definition with_tx (cn : conn) (intx : bool) (q : list (list frame)) (w : list (bytes * Z)) : conn :=
   {| c_db := c_db cn; c_auth := c_auth cn; c_intx := intx; c_queue := q; c_watched := w;
@@ -395,6 +431,10 @@ Definition process_frame (now : Z) (s : server) (c : Z) (req : frame) (oracle : 
                   (match parts with _ :: a :: _ => a | _ => FSimple (bs "PONG") end, s)
                 else if beq command (bs "QUIT") then (r_ok, s)
                 else (FError (bs "NOAUTH"), s)
+              (* 51742a5: the queueing test comes first; only the transaction control commands
+                 (table regenerated from should_queue_command) are exempt *)
+              else if c_intx cn && negb (mem_name command tx_not_queued) then
+                (FSimple (bs "QUEUED"), set_conn s c (with_tx cn true (c_queue cn ++ [parts]) (c_watched cn)))
               else if beq command (bs "MULTI") then
                 if c_intx cn then (r_err, s)
                 else (r_ok, set_conn s c (with_tx cn true [] (c_watched cn)))
@@ -404,17 +444,14 @@ Definition process_frame (now : Z) (s : server) (c : Z) (req : frame) (oracle : 
               else if beq command (bs "WATCH") then
                 if len parts <? 2 then (r_err, s)
                 else if c_intx cn then (r_err, s)
-                else match watch_loop_partial (get_trk s (c_db cn)) rest (c_watched cn) with
+                else match watch_loop_partial (c_db cn) (get_trk s (c_db cn)) rest (c_watched cn) with
                      | (t', w', okb) =>
                          (if okb then r_ok else r_err,
                           set_conn (set_trk s (c_db cn) t') c (with_tx cn (c_intx cn) (c_queue cn) w'))
                      end
               else if beq command (bs "UNWATCH") then
-                let t' := fold_left (fun t kb => unregister_watch t (fst kb)) (c_watched cn) (get_trk s (c_db cn)) in
-                (r_ok, set_conn (set_trk s (c_db cn) t') c (with_tx cn (c_intx cn) (c_queue cn) []))
+                (r_ok, set_conn (unwatch_all s (c_watched cn)) c (with_tx cn (c_intx cn) (c_queue cn) []))
               else if beq command (bs "AUTH") then h_auth s c parts
-              else if c_intx cn && negb (mem_name command tx_not_queued) then
-                (FSimple (bs "QUEUED"), set_conn s c (with_tx cn true (c_queue cn ++ [parts]) (c_watched cn)))
               else normal_command now s c (c_db cn) parts oracle
           end
       | _ => (r_err, s)           (* "ERR invalid command format" *)
@@ -503,6 +540,49 @@ Definition close_conn (s : server) (c : Z) : server := del_conn s c.
 
 (** process_frame with the pub/sub commands: (frames written directly into connection buffers,
     in order; the frame returned to the connection loop; state) *)
+(** one queued command at EXEC (51742a5): SELECT, PUBLISH, (P)SUBSCRIBE, (P)UNSUBSCRIBE and AUTH run
+    for the connection that sent EXEC; the confirmations of a queued (un)subscribe become elements of
+    the EXEC reply; a PUBLISH still writes straight into the subscribers' buffers.
+    Result: (direct frames, reply elements, state, database for the commands that follow) *)
+Definition exec_one_x (now : Z) (s : server) (c : Z) (dbi : Z) (parts : list frame)
+  : list (Z * frame) * list frame * server * Z :=
+  let name := queued_name parts in
+  let sub := fun (res : list (Z * frame) * frame * server) =>
+    match res with
+    | (direct, FNoResponse, s') => ([], map snd direct, s', dbi)
+    | (direct, r, s') => (direct, [r], s', dbi)
+    end in
+  if beq name (bs "SELECT") then
+    match normal_command now s c dbi parts None with
+    | (rep, s') => ([], [rep], s', match zlookup c (s_conns s') with Some cn => c_db cn | None => dbi end)
+    end
+  else if beq name (bs "PUBLISH") then
+    match h_publish s parts with (direct, r, s') => (direct, [r], s', dbi) end
+  else if beq name (bs "SUBSCRIBE") then sub (h_sub true s c parts)
+  else if beq name (bs "PSUBSCRIBE") then sub (h_sub false s c parts)
+  else if beq name (bs "UNSUBSCRIBE") then sub (h_unsub true s c parts)
+  else if beq name (bs "PUNSUBSCRIBE") then sub (h_unsub false s c parts)
+  else if beq name (bs "AUTH") then
+    match h_auth s c parts with (r, s') => ([], [r], s', dbi) end
+  else
+    match normal_command now s 0 dbi parts None with (rep, s') => ([], [rep], s', dbi) end.
+Fixpoint exec_queue_x (now : Z) (s : server) (c : Z) (dbi : Z) (q : list (list frame))
+         (dacc : list (Z * frame)) (acc : list frame) : list (Z * frame) * list frame * server :=
+  match q with
+  | [] => (dacc, acc, s)
+  | parts :: r =>
+      match exec_one_x now s c dbi parts with
+      | (direct, reps, s', dbi') => exec_queue_x now s' c dbi' r (dacc ++ direct) (acc ++ reps)
+      end
+  end.
+Definition h_exec_x (now : Z) (s : server) (c : Z) (cn : conn) : list (Z * frame) * frame * server :=
+  if negb (c_intx cn) then ([], r_err, s) else
+  if watch_violated now s cn then ([], FNullArray, set_conn s c (clear_tx cn))
+  else
+    match exec_queue_x now (set_conn s c (clear_tx cn)) c (c_db cn) (c_queue cn) [] [] with
+    | (direct, reps, s2) => (direct, FArray reps, s2)
+    end.
+
 Definition process_frame_x (now : Z) (s : server) (c : Z) (req : frame) (oracle : option frame)
   : list (Z * frame) * frame * server :=
   let other := match process_frame now s c req oracle with (r, s') => ([], r, s') end in
@@ -514,6 +594,8 @@ Definition process_frame_x (now : Z) (s : server) (c : Z) (req : frame) (oracle 
       | None => other
       | Some cn =>
           if (match s_password s with Some _ => true | None => false end) && negb (c_auth cn) then other
+          else if c_intx cn && negb (mem_name command tx_not_queued) then other      (* queued *)
+          else if beq command (bs "EXEC") then h_exec_x now s c cn
           else if beq command (bs "PUBLISH") then h_publish s parts
           else if beq command (bs "SUBSCRIBE") then h_sub true s c parts
           else if beq command (bs "PSUBSCRIBE") then h_sub false s c parts
